@@ -7,9 +7,12 @@ import sys
 
 root = '/verif/seeded'
 out = {}
+regfile = os.path.join(root, 'REGRESSION.json')
 names = sorted(d for d in os.listdir(root) if os.path.isdir(os.path.join(root, d)))
 if len(sys.argv) > 1:
     names = [n for n in names if any(a in n for a in sys.argv[1:])]
+    if os.path.exists(regfile):
+        out = json.load(open(regfile))        # partial run: keep the other entries
 for n in names:
     meta = json.load(open(os.path.join(root, n, 'meta.json')))
     props = [meta['property']] + list(meta.get('also', []))
@@ -33,4 +36,4 @@ for n in names:
     out[n] = res
     print(n, ' '.join('%s:%s' % (p, 'CONCRETE' if r['concrete'] else ('diverge-only' if r['exit'] == 1 else 'MISSED'))
                       for p, r in res.items()), flush=True)
-json.dump(out, open(os.path.join(root, 'REGRESSION.json'), 'w'), indent=1)
+json.dump(out, open(regfile, 'w'), indent=1, sort_keys=True)
